@@ -71,7 +71,7 @@ proof fn lemma_char_len_bounds(ws: Seq<WordShape>, n: int)
 #[verifier::external_body]
 fn text_match(rtext: &TextRef, qtext: &TextRef) -> (ret: (Vec<WordMatch>, Vec<WordMatch>))
     requires text_wf(rtext), text_wf(qtext), text_small(rtext), text_small(qtext),
-    ensures tm_post(rtext, qtext, ret), tm_some(rtext, qtext, ret), tm_empty(qtext, ret),
+    ensures tm_post(rtext, qtext, ret), tm_some(rtext, qtext, ret), tm_empty(qtext, ret), tm_first(rtext, qtext, ret), tm_fin(qtext, ret),
 { unimplemented!() }
 // C08: slot k of the score vector holds component k, in the documented priority order
 pub open spec fn slots_ok(h: Hit) -> bool {
@@ -253,6 +253,8 @@ pub fn score(query: &TextRef, hit: &mut Hit)
         &&& matches_for_text(ms, &h.title) && matches_ok(ms) && matches_for_text(h.qmatches@, query) && matches_ok(h.qmatches@)
         // C03 / C13 (TM-some): a title word that the first query word is a prefix of (or equal to) gives the hit a match
         &&& tm_some(&h.title, query, (h.rmatches, h.qmatches)) // [C03 C13]
+        // C13 (TM-first / TM-fin): ... the first query word itself is matched; unfinished matches only with an unfinished query word
+        &&& tm_first(&h.title, query, (h.rmatches, h.qmatches)) && tm_fin(query, (h.rmatches, h.qmatches)) // [C13]
         // C12 / C09: a query without words leaves the hit without matches; the slots as one predicate (for Store::search)
         &&& (query.words@.len() == 0 ==> ms.len() == 0) // [C12 C09]
         &&& slots_ok(h) // [C08 C12 C07]
